@@ -150,9 +150,11 @@ pub fn real_serve(bin : &str, base : &str, n : usize, seed : u64) -> Vec<Value>
             let s = ["a.src", "b.src", "c.src"][rng.below(3)]; std::fs::write(dir.join(s), format!("{}v{}\n", s, rng.below(4))).unwrap();
             if rng.chance(1, 3) { ruler(bin, &dir, &["clean"]); }
         }
-        ruler(bin, &dir, &["build"]);
+        if rng.chance(1, 2) { ruler(bin, &dir, &["build"]); } else { ruler(bin, &dir, &["build", "a.out"]); }
         if rng.chance(1, 2) { ruler(bin, &dir, &["clean", "d.out"]); }
         std::fs::write(dir.join("secret.txt"), "outside the ruler directory\n").unwrap();
+        /* the first build may be restricted to one goal, so that some rules get their first history while the server is up */
+        let partial = rng.chance(1, 2);
         /* what is on disk, decoded independently */
         let mut cache : BTreeMap<String, Vec<u8>> = BTreeMap::new();
         if let Ok(rd) = std::fs::read_dir(dir.join(".ruler/cache")) { for e in rd.filter_map(|e| e.ok()) { if let Ok(b) = std::fs::read(e.path()) { cache.insert(e.file_name().to_string_lossy().to_string(), b); } } }
@@ -213,6 +215,30 @@ pub fn real_serve(bin : &str, base : &str, n : usize, seed : u64) -> Vec<Value>
         }
         ask("rules", format!("/rules/{}/{}", absent[1], absent[0]), json!({"wellformed" : true, "recorded" : false, "want_text" : ""}), &mut out);
         ask("rules", "/rules/..%2fcache/x".to_string(), json!({"wellformed" : false, "recorded" : false, "want_text" : "", "hostile" : true}), &mut out);
+        /* the directory changes while the server is running: another ruler process builds with edited sources */
+        let _ = partial;
+        for round in 0..2
+        {
+            let s = ["a.src", "b.src", "c.src"][rng.below(3)]; std::fs::write(dir.join(s), format!("{}w{}.{}\n", s, round, rng.below(4))).unwrap();
+            ruler(bin, &dir, &["build"]);
+            if rng.chance(1, 2) { ruler(bin, &dir, &["clean", "d.out"]); }
+            let mut cache2 : BTreeMap<String, Vec<u8>> = BTreeMap::new();
+            if let Ok(rd) = std::fs::read_dir(dir.join(".ruler/cache")) { for e in rd.filter_map(|e| e.ok()) { if let Ok(b) = std::fs::read(e.path()) { cache2.insert(e.file_name().to_string_lossy().to_string(), b); } } }
+            for (name, bytes) in cache2.iter() { ask("files", format!("/files/{}", name), json!({"wellformed" : b62_wellformed(name), "cached" : true, "want_sha" : ticket_of(bytes), "later" : true}), &mut out); }
+            for (name, _) in cache.iter() { if !cache2.contains_key(name) { ask("files", format!("/files/{}", name), json!({"wellformed" : true, "cached" : false, "want_sha" : "", "later" : true}), &mut out); } }
+            if let Ok(rd) = std::fs::read_dir(dir.join(".ruler/history")) { for e in rd.filter_map(|e| e.ok())
+            {
+                if let Some(h) = std::fs::read(e.path()).ok().and_then(|b| decode_history(&b))
+                {
+                    let rt = e.file_name().to_string_lossy().to_string();
+                    for (k2, v) in h.iter()
+                    {
+                        let want = v.iter().map(|(t, _, _)| b62(t)).collect::<Vec<_>>().join("\n");
+                        ask("rules", format!("/rules/{}/{}", rt, b62(k2)), json!({"wellformed" : true, "recorded" : true, "want_text" : want, "later" : true}), &mut out);
+                    }
+                }
+            } }
+        }
         /* still alive? */
         ask("alive", format!("/files/{}", absent[0]), json!({"wellformed" : true, "cached" : false, "want_sha" : ""}), &mut out);
         let _ = child.kill(); let _ = child.wait();
